@@ -187,6 +187,9 @@ def bounded_interleavings(seed, n_hist, steps):
         ("orthogonal", lambda a, b: g.orthogonal(a, b)), ("measures", lambda a, b: [getattr(x, m)() for x in (a, b) for m in ("length", "area", "volume") if hasattr(x, m)]),
     ]
     for hnum in range(n_hist):
+        g.set_eps()
+        if hnum % 2 == 1:
+            g.set_sig_figures(8)  # every other history runs under a non-default tolerance: a query that resets the tolerance to its default is then seen by the frame comparison
         pool = make_pool()
         for step in range(steps):
             qn, q = rng.choice(queries)
@@ -391,6 +394,7 @@ def bounded_interleavings(seed, n_hist, steps):
             classes.add("builder:" + name)
             if [_native_snapshot(x) for x in (c, nrm, v1, v2, v3)] != args_before:
                 fail("builder:" + name, "builder modified its arguments", dict(builder=name))
+    g.set_eps()
     return dict(evaluations=ev, classes=sorted(classes), failures=failures, samples=samples)
 
 
